@@ -124,6 +124,10 @@ pub enum Op {
     /// the receiver moved (a gpsd-fed client passes a new position with every frame) and/or the
     /// range setting changed: applies to the frames that follow
     Receiver((f64, f64), f64),
+    /// the receiver is put exactly on (kind 0) or exactly opposite (kind 1: the antipode of) the
+    /// position the tracker currently publishes for `addr` (taken from the tracker at run time, so
+    /// it is bit-exact), with a new range; no effect while that aircraft has no position
+    ReceiverRel { addr: u32, kind: u8, range: f64 },
 }
 
 pub struct History {
@@ -294,6 +298,17 @@ pub fn gen_history(r: &mut Rng, kind: &'static str, with_time: bool) -> History 
     let mobile = r.below(4) == 0;
     let (mut rx, mut range) = (receiver, max_range);
     for _ in 0..len {
+        if mobile && r.below(60) == 0 {
+            // exactly above / exactly opposite an aircraft, then its last position report once more
+            let fi = r.below(flights.len() as u64) as usize;
+            if let Some(m) = flights[fi].last_pos_frame.clone() {
+                let kind = r.below(2) as u8;
+                range = if kind == 0 { *r.pick(&[0.0, 0.0, 1.0]) } else { *r.pick(&[500.0, 20_000.0, 20_020.0, f64::INFINITY]) };
+                ops.push(Op::ReceiverRel { addr: flights[fi].addr, kind, range });
+                ops.push(Op::Frame(m));
+                continue;
+            }
+        }
         if mobile && r.below(25) == 0 {
             let d = *r.pick(&[0.3, 2.0, 10.0, 60.0]);
             rx = cpr::destination(rx.0, rx.1, r.f64() * 360.0, d);
@@ -493,6 +508,7 @@ pub fn history_json(h: &History) -> Value {
             Op::Advance(d) => json!({"advance_ns": d.to_string()}),
             Op::Prune(t) => json!({"prune_s": t}),
             Op::Receiver(p, range) => json!({"receiver": [p.0, p.1], "max_range": range}),
+            Op::ReceiverRel { addr, kind, range } => json!({"receiver_rel": [addr, kind], "max_range": if range.is_finite() { json!(range) } else { json!("inf") }}),
         }).collect::<Vec<_>>(),
     })
 }
@@ -514,6 +530,17 @@ pub fn run_history(g: &Gillham, col: &mut Collector, h: &History, upto: usize) -
         let mut dis = Vec::new();
         processed = idx + 1;
         match op {
+            Op::ReceiverRel { addr, kind, range: rg } => {
+                let k = ICAO([(addr >> 16) as u8, (addr >> 8) as u8, *addr as u8]);
+                if let Some(p) = planes.get(k).and_then(|s| s.coords.position) {
+                    rx = if *kind == 0 { (p.latitude, p.longitude) } else { (-p.latitude, if p.longitude >= 0.0 { p.longitude - 180.0 } else { p.longitude + 180.0 }) };
+                    range = *rg;
+                    model.receiver = rx;
+                    model.max_range = range;
+                    col.count(if *kind == 0 { "receiver_put_on_aircraft" } else { "receiver_put_on_antipode" }, 1);
+                }
+                continue;
+            }
             Op::Receiver(p, rg) => {
                 rx = *p;
                 range = *rg;
@@ -742,7 +769,8 @@ pub fn run(ctx: &Ctx) -> i32 {
             let kind = h.kind;
             slot.begin(|| format!("tracker history #{i} kind {kind}"));
             let planes = run_history(&ctx.g, col, &h, usize::MAX);
-            if !timed {
+            let has_rel = h.ops.iter().any(|o| matches!(o, Op::ReceiverRel { .. }));
+            if !timed && !has_rel {
                 if let Some((p, n)) = &planes {
                     if i % 4 == 0 {
                         isolation(&ctx.g, col, &h, p, *n);
@@ -774,7 +802,7 @@ pub fn run(ctx: &Ctx) -> i32 {
             vec!["SystemTime::now()/elapsed() resolve to the interposed clock_gettime (cross-checked by a real-time run without interposition)", "time is logical: the verdict never depends on wall-clock"],
         ),
         _ => (
-            "seeded histories of 40-1500 real frames (encoder -> bytes -> Frame::from_bytes -> Airplanes::action) over 1-12 aircraft: consistent flights, teleports of 99/101/150/5000 km, range-circle crossings, garbage CPR pairs, duplicates, same-parity runs, identification/velocity (with and without derived velocity)/other ES payloads, DF18 with every CF and PI != 0, non-ES formats addressed to tracked aircraft; 10 receivers incl. poles/antimeridian, 5 ranges, every fourth history with a receiver that moves (0.3-60 km steps) and changes its range setting between frames; every fifth history on the virtual clock with time passing and expiry (advance / prune steps as in C15); every sixth history with a shadow aircraft under the neighbouring address sending bit-identical position reports; one 66-72k-frame single-aircraft session per 3000 histories (C12: exact count beyond 2^16); after every step a snapshot of the real tracker (records, details, all_position, Display) is compared with the sequential model; isolation replay for up to 6 aircraft of every 4th history; distinct_nontrivial = histories",
+            "seeded histories of 40-1500 real frames (encoder -> bytes -> Frame::from_bytes -> Airplanes::action) over 1-12 aircraft: consistent flights, teleports of 99/101/150/5000 km, range-circle crossings, garbage CPR pairs, duplicates, same-parity runs, identification/velocity (with and without derived velocity)/other ES payloads, DF18 with every CF and PI != 0, non-ES formats addressed to tracked aircraft; 10 receivers incl. poles/antimeridian, 5 ranges, every fourth history with a receiver that moves (0.3-60 km steps, and now and then exactly onto or exactly opposite an aircraft's published position) and changes its range setting between frames; every fifth history on the virtual clock with time passing and expiry (advance / prune steps as in C15); every sixth history with a shadow aircraft under the neighbouring address sending bit-identical position reports; one 66-72k-frame single-aircraft session per 3000 histories (C12: exact count beyond 2^16); after every step a snapshot of the real tracker (records, details, all_position, Display) is compared with the sequential model; isolation replay for up to 6 aircraft of every 4th history; distinct_nontrivial = histories",
             vec!["events are derived from the frame bytes by the reference model, not by the decoder under test", "decisions within a 1e-9 relative band of the range/jump thresholds follow the implementation (counted)"],
         ),
     };
@@ -795,6 +823,8 @@ fn replay_file(g: &Gillham, col: &mut Collector, path: &str) -> Result<(), Strin
             ops.push(Op::Advance(d.parse().map_err(|_| "bad advance")?));
         } else if let Some(t) = o["prune_s"].as_u64() {
             ops.push(Op::Prune(t));
+        } else if let Some(p) = o["receiver_rel"].as_array() {
+            ops.push(Op::ReceiverRel { addr: p[0].as_u64().unwrap_or(0) as u32, kind: p[1].as_u64().unwrap_or(0) as u8, range: o["max_range"].as_f64().unwrap_or(f64::INFINITY) });
         } else if let Some(p) = o["receiver"].as_array() {
             ops.push(Op::Receiver((p[0].as_f64().unwrap_or(0.0), p[1].as_f64().unwrap_or(0.0)), o["max_range"].as_f64().unwrap_or(500.0)));
         }
